@@ -540,10 +540,10 @@ def setColl (sch : Schema) (del : ObjId → St → Res) (isRev : Bool) (o : ObjI
       -- the cascade may have deleted items that were to stay in the collection: they are not put back
       let kept := if rd.kind != .coll && d.cascade then items.filter (fun x => !(st.store.row x).status.isDel) else items
       let st := if isRev then st.log (.rewrite o c (r.items c) (r.added c) (r.removed c) (r.count c) (st.store.modColl c o)) else st
-      -- if reverse is attr: to_add.discard(obj); to_remove.discard(obj)   (reverse_add / reverse_remove have recorded the owner already)
-      let sym := d.rev = c
-      .ok (st.setStore (rewriteSet st.store o c (fun x => kept.contains x) (fun x => toAdd.contains x && !(sym && x == o))
-        (fun x => toRemove.contains x && !(sym && x == o))))
+      -- to_add -= setdata; to_remove &= setdata: only what the reverse calls above (reverse.__set__ of one-to-many items, reverse_add /
+      -- reverse_remove for a symmetric owner) have not already handled in this very collection is recorded in added / removed
+      .ok (st.setStore (rewriteSet st.store o c (fun x => kept.contains x) (fun x => toAdd.contains x && !(r.items c x))
+        (fun x => toRemove.contains x && r.items c x)))
   | _, _ => .err .noSuchAttr st
 
 /-! ## 9. Entity._delete_ -/
